@@ -365,4 +365,31 @@ CHECKS = {
         assumptions=HIST_ASSUME,
         jobs=[dict(test="TestC11", quick=T(8, 6, 70), thorough=T(16, 120, 100, 3000))],
     ),
+    "C14": dict(
+        level="exploration",
+        level_text="Model-based stateful testing of the account pool at chain level on a node with a second producer: next blocks, "
+                   "forks of pooled blocks with generated plasma ratios and hash order, competing blocks for confirmed heights "
+                   "(offered to the pool directly, forced and not), re-insertion of pooled blocks, own momentums and momentums of "
+                   "the other producer that confirm OTHER blocks for accounts with pooled blocks. A reference pool model (per "
+                   "account: confirmed tip + one list; fast-forward, else higher total/base plasma ratio, else smaller hash; "
+                   "after a momentum: old list minus confirmed, dropped if it no longer links) predicts every pool decision and "
+                   "must equal GetUncommittedAccountBlocksByAddress after every step; every pooled list (users, pillars, "
+                   "contracts) must be a chain on the confirmed tip; confirmed blocks never change; offered momentum content is "
+                   "<=100, a per-account prefix, and never splits a contract batch (TestC14Limit: >100 pooled blocks). "
+                   "TestC14Order: two nodes fed 2-4 competing candidates in opposite orders keep the same winner = the maximum "
+                   "of the rule. TestC14Schedule (harness-owned schedule): the pillar's own momentum is generated, sync inserts "
+                   "1-3 competing momentums, then the own momentum is inserted: an error must come back and store, consensus "
+                   "data and further production must equal a fresh node's. TestC14Race (-race): RPC-style readers against the "
+                   "inserting goroutine, and a pillar producing while sync inserts a competing momentum at the same height.",
+        level_note="Real-goroutine interleavings are sampled by the Go scheduler; a reported race is real, silence is weak evidence.",
+        technique="model-based stateful property testing (rapid); metamorphic order test; harness-owned schedules; -race sampling",
+        rule="TestC14: non-trivial = replacements decided by BOTH tie-break levels and >=1 momentum confirming other blocks; "
+             "Order/Schedule cases are non-trivial when they reach their comparison; Limit when >100 blocks are pooled",
+        assumptions=HIST_ASSUME,
+        jobs=[dict(test="TestC14", quick=T(4, 12, 60), thorough=T(8, 200, 100, 3000)),
+              dict(test="TestC14Limit", quick=T(1, 6), thorough=T(2, 80, 0, 3000)),
+              dict(test="TestC14Order", quick=T(1, 60), thorough=T(2, 1500, 0, 3000)),
+              dict(test="TestC14Schedule", quick=T(2, 15), thorough=T(4, 250, 0, 3000)),
+              dict(test="TestC14Race", race=True, quick=T(2, 3), thorough=T(8, 40, 0, 3000))],
+    ),
 }
